@@ -440,6 +440,20 @@ theorem parseContentType_total (v : Bytes) : parseContentType v ≠ .panic := by
   | nil => exact absurd h this
   | cons x t => simp [idx, R.bind]
 
+/-! ### the request logger in front of every HTTP handler -/
+
+/-- **dumpRequest**: the logged part of the body never depends on the declared Content-Length
+(−1 for chunked / HTTP-2 bodies) and the truncation slice is in range -/
+theorem dumpCapped_total (contentLength : Int) (body : Bytes) : dumpCapped contentLength body ≠ .panic := by
+  unfold dumpCapped
+  simp only []
+  split
+  · rename_i h
+    simp only [bind_eq]
+    refine bind_ne_panic (sliceR_ne_panic _ _ _ ⟨by omega, by omega, ?_⟩) fun _ _ => by intro h; cases h
+    simp only [logPeek, List.length_take] at h ⊢; omega
+  · intro h; cases h
+
 /-! ### the scoped property -/
 
 /-- the modelled pre-authentication code never panics, whatever the client sends -/
@@ -511,6 +525,11 @@ def expectedSites : List ((String × String × String) × Cover) := [
   (("internal/protocols/httpp/credentials.go", "Credentials", "auth[len(\"Bearer \"):]"), .model "credentials"),
   (("internal/protocols/httpp/handler_filter_requests.go", "*handlerFilterRequests.ServeHTTP", "r.URL.Path[0]"), .model "filterPath"),
   (("internal/protocols/httpp/content_type.go", "ParseContentType", "strings.Split(v, \";\")[0]"), .model "parseContentType"),
+  (("internal/protocols/httpp/handler_logger.go", "dumpRequest", "capped[:maxRequestBodySizeToLog]"), .model "dumpCapped"),
+  (("internal/protocols/httpp/handler_logger.go", "dumpRequest", "req.Header[k]"), .map),
+  (("internal/protocols/httpp/handler_logger.go", "dumpRequest", "requestHeadersToRedact[http.CanonicalHeaderKey(k)]"), .map),
+  (("internal/protocols/httpp/handler_logger.go", "*responseRecorder.Write", "requestBodyContentTypeToLog[contentType]"), .map),
+  (("internal/protocols/httpp/handler_exit_on_panic.go", "*handlerExitOnPanic.ServeHTTP", "buf[:n]"), .guarded "n = runtime.Stack(buf) <= len(buf)"),
   (("internal/conf/path.go", "IsValidPathName", "name[0]"), .model "isValidPathName"),
   (("internal/conf/path.go", "IsValidPathName", "name[len(name)-1]"), .model "isValidPathName"),
   (("internal/servers/srt/streamid.go", "*streamID.unmarshal", "raw[len(\"#!::\"):]"), .model "srtUnmarshal"),
@@ -607,6 +626,27 @@ theorem sites_inventory : Gen.C35.sites = expectedSites.map (·.1) := rfl
 
 /-- the functions that call the authentication boundary are exactly the reviewed ones -/
 theorem boundary_inventory : Gen.C35.boundary = expectedBoundary := rfl
+
+/-- run-time sized `make`s in the inventoried code: none is sized by a client-declared length
+(`len(req.Header)` is the size of an already parsed map; `1<<20` is a constant) -/
+def expectedMakes : List (String × String × String) := [
+  ("internal/protocols/httpp/handler_logger.go", "dumpRequest", "make([]string, 0, len(req.Header))"),
+  ("internal/protocols/httpp/handler_exit_on_panic.go", "*handlerExitOnPanic.ServeHTTP", "make([]byte, 1<<20)")
+]
+
+/-- `close(ch)` sites of the MoQ session: `s.done` (once, deferred in `run`), `s.setupReceived` (inside
+`processSetupMessage`, in the `default` branch of a `select` on the same channel, under `s.mutex` — the
+check and the close are atomic; moving either is a new row), `streamClosed` (local channel),
+`s.publishReady` (under the mutex, state-guarded) -/
+def expectedCloses : List (String × String × String) := [
+  ("internal/servers/moq/session.go", "*session.run", "close(s.done)"),
+  ("internal/servers/moq/session.go", "*session.processSetupMessage", "close(s.setupReceived)"),
+  ("internal/servers/moq/session.go", "*session.onSubscribeTrack", "close(streamClosed)"),
+  ("internal/servers/moq/session.go", "*session.onPublishCatalog", "close(s.publishReady)")
+]
+
+theorem makes_inventory : Gen.C35.makes = expectedMakes := rfl
+theorem closes_inventory : Gen.C35.closes = expectedCloses := rfl
 
 /-- the three RTSP handlers start with the modelled guard + strip; httpp.Server installs the
 empty-path filter around every router -/
